@@ -1,5 +1,6 @@
 import HdVerif.Model.Json
 import HdVerif.Model.PixelPipeline
+import HdVerif.Generated.T6g
 open Lean HdVerif HdVerif.Drv HdVerif.Gen HdVerif.PixelPipeline
 
 def getTri (v : Json) : Except String Tri :=
@@ -108,6 +109,11 @@ def handlers : List (String × Handler) := [
     let clip ← getBool j "clip"
     pure (okJson (Json.arr (((← getIntList j "xs").map (applyLut table first clip)).map
       (exceptToJson (fun (i : Int) => (i : Json)))).toArray))),
+  ("checkRescaleDtype", fun j => do
+    let r := checkRescaleDtype (← getRat j "slope") (← getRat j "intercept") (← getBool j "has_range") (← getInt j "rmin")
+      (← getInt j "rmax") (← getStr j "out_kind") (← getStr j "in_kind") (← getInt j "out_max") (← getInt j "out_min")
+      (← getInt j "in_max") (← getInt j "in_min")
+    pure (exceptToJson (fun (b : Bool) => Json.bool b) r)),
   ("lutInit", fun j => do
     let r := lutInit (← getInt j "first") (← getNat j "bits") (← getNatList j "data")
     pure (exceptToJson (fun (ds : LutDs) => Json.mkObj [("descriptor", intsToJson ds.descriptor), ("data", natsToJson ds.data)]) r)),
